@@ -88,12 +88,11 @@ PROPS = {
                 'dangling targets, a variable-looking id in 1 of 6 cases), property facts via EnableRule, removals of facts/rules in random order, '
                 'both state kinds, reloads; after each removal the remaining ids (memory and storage) are compared with the closure spec; '
                 'non-trivial = at least 3 distinct (op, outcome) kinds; distinct by hash of inputs',
-        'refuted': ['varlike_id_refuted (D14)'],
         'level_text': 'Coq theorems over the executable state model: cascade_terminates_all_graphs (every state and dependency graph, both state kinds, storage faults, '
                       'expired facts), cascade_fuel_is_irrelevant, cascade_exact (linear state: exactly the least closure is removed from memory and storage, nothing else '
                       'changes), cascade_succeeds. Tie to the code: Location histories replayed through the extracted model; the closure spec is evaluated after every '
                       'successful RemFact/RemRule on both state kinds.',
-        'level_note': 'History-level theorems (proofs/Hist*.v): in every reachable state of both kinds a successful removal leaves memory and storage = before minus the deleteWith-closure, nothing else changes, and the checker\'s executable closure is proved equal to the inductive one. Exactness is proved for the linear state at instants where nothing is expired and ids do not look like variables (D14 is the complement); for the '
+        'level_note': 'History-level theorems (proofs/Hist*.v): in every reachable state of both kinds a successful removal leaves memory and storage = before minus the deleteWith-closure, nothing else changes, and the checker\'s executable closure is proved equal to the inductive one. Exactness is proved at instants where nothing is expired, for ANY ids (D14 is repaired: ids that look like variables included); for the '
                       'indexed state exactness rests on the correspondence plus C02 search exactness (composition not yet a single theorem).',
         'technique': 'Coq proof (measure on present facts for termination; least-fixed-point characterisation for exactness) + differential replay with closure oracle',
         'assumptions': ['facts are only removed during a removal (no concurrent adds: sequential histories)'],
